@@ -42,14 +42,19 @@ def rich_state(P, A):
     meta = E('mosExternalMetadata', T('mosScope', 'PLAYLIST'), T('mosSchema', 'sch.ro'),
              E('mosPayload', T('Owner', c1), E('nested', T('leaf', 'x'), k=c1)))
     untimed = P.get('untimed', ())
+    dec_story = A.get('n0', A.get('x', 'decoy-story'))      # the carried / unknown ID, where there is one
+    dec_item = A.get('n0', A.get('e0', 'decoy-item'))
     if level == 'story':
         stories = []
         if P.get('blank_first'):
             # a story whose storyID tag is blank (reachable: roStoryAppend of such a story)
             stories.append(B.story(None, slug='blank', timing=tb('5'), body=[T('p', c0)]))
         for i, sid in enumerate(ids):
+            if P.get('blank_mid') == i:
+                stories.append(B.story(None, slug='blank', timing=tb('5'), body=[T('p', c0)]))
             stories.append(B.story(sid, slug='ss', timing=None if i in untimed else tb('10'),
-                                   body=[T('p', c0), B.item('I1', slug='one', obj_id='o1'), T('p', None)]))
+                                   body=[T('p', c0), B.item('I1', slug='one', obj_id='o1', extra=B.decoys(dec_story, dec_item)),
+                                         T('p', None)]))
         root = B.ro_tree(stories, lead=3, gap=P.get('gap', 0), trail=P.get('trail', 1), edstart=None)
         rc = root.find('roCreate')
         rc.insert(3, meta)
@@ -59,7 +64,10 @@ def rich_state(P, A):
     if P.get('blank_first'):
         body.append(B.item(None, slug='blank'))
     for i, iid in enumerate(ids):
-        body.append(B.item(iid, slug='is', obj_id=c0 if i == 0 else 'o'))
+        if P.get('blank_mid') == i:
+            body.append(B.item(None, slug='blank'))
+        body.append(B.item(iid, slug='is', obj_id=c0 if i == 0 else 'o',
+                           extra=B.decoys(dec_story, dec_item) if i == 0 else None))
         if i == 0:
             body.append(T('p', c0))
     if P.get('tail', True):
